@@ -20,7 +20,8 @@ W = "include/boost/gil/"
 PATTERNS = ['^boost::gil::reader_backend::', '^boost::gil::reader::', '^boost::gil::scanline_reader::',
             '^boost::gil::detail::(file_stream_device|istream_device|ostream_device)::',
             '^boost::gil::(read_view|read_and_convert_view|read_image|read_and_convert_image|read_image_info)$',
-            '^boost::gil::detail::(read_and_no_convert|read_and_convert)::', '^boost::gil::writer::', '^boost::gil::reader_base::']
+            '^boost::gil::detail::(read_and_no_convert|read_and_convert)::', '^boost::gil::writer::', '^boost::gil::reader_base::',
+            '^boost::gil::scanline_read_iterator::']
 
 
 def io_ast(wd):
@@ -57,6 +58,7 @@ def run(rep):
     partial_rows_scan(rep, fns)
     partial_rows_lib(rep, fns)
     bmp_bit_manipulators(rep, fns)
+    scanline_iterator_protocol(rep, fns)
 
 
 def must_call(rep, fns):
@@ -771,3 +773,72 @@ def bmp_bit_manipulators(rep, fns):
         else:
             rep.violation("S12-bit-manipulator", key, W + "extension/io/bmp/detail/read.hpp vs scanline_read.hpp", {"reader": rd[bits], "scanline_reader": sc[bits], "bmp_format": want[bits]})
     rep.floor("obligations:S12", 3)
+
+
+def scanline_iterator_protocol(rep, fns):
+    """S13: scanline_read_iterator as a finite-state machine: every row of the stream is consumed exactly once"""
+    from .ast.absexec import Exec, Stop
+    from .ir.poly import Poly
+    rep.rule("S13 scanline_read_iterator: over every sequence of dereference and increment, each row position is consumed from the reader exactly once "
+             "(read on the first dereference, or skip at the increment if it was never dereferenced) -- the flag automaton extracted from the two members is explored exhaustively")
+    inc = [f for f in fns if f["name"].endswith("scanline_read_iterator::increment")]
+    der = [f for f in fns if f["name"].endswith("scanline_read_iterator::dereference")]
+    rep.count("obligations:S13")
+    if not inc or not der:
+        rep.fail_analysis("S13: scanline_read_iterator::increment/dereference not instantiated")
+        return
+
+    class Ex(Exec):
+        def on_call(self, n):
+            nm = (n.get("callee") or {}).get("name", "")
+            if n.get("member_call") and nm.split("::")[-1] in ("read", "skip") and "reader_" in R.key(n.get("obj")):
+                self.events.append(nm.split("::")[-1])
+                return None
+            return None
+
+        def ev(self, n):
+            n1 = R.strip(n)
+            if isinstance(n1, dict) and n1.get("k") == "Unary" and n1.get("op") in ("++", "--") and "pos_" in R.key(n1.get("e")):
+                self.events.append("advance")
+                return None
+            return Exec.ev(self, n)
+
+    def step(f, rd, sk):
+        ex = Ex(fns)
+        ex.env["M:read_scanline_"] = Poly.const(rd)
+        ex.env["M:skip_scanline_"] = Poly.const(sk)
+        ex.invoke(f, [])
+        r, s = ex.env.get("M:read_scanline_"), ex.env.get("M:skip_scanline_")
+        if r is None or s is None or not r.is_const() or not s.is_const():
+            raise Stop("flag value not constant after %s" % f["name"].split("::")[-1])
+        return ex.events, r.const_value(), s.const_value()
+    # states: (read flag, skip flag, consumed): initial flags from the member initialisers (true, true)
+    start = (1, 1, 0)
+    seen, todo, prob = {start}, [(start, "")], []
+    try:
+        while todo and not prob:
+            (rd, sk, cons), hist = todo.pop()
+            for opn, f in (("*", der[0]), ("++", inc[0])):
+                evs, r2, s2 = step(f, rd, sk)
+                c2 = cons
+                for e in evs:
+                    if e in ("read", "skip"):
+                        if c2:
+                            prob.append("after `%s` the operation `%s` consumes the current row a second time (%s)" % (hist, opn, e))
+                        c2 = 1
+                    if e == "advance":
+                        if not c2:
+                            prob.append("after `%s` the operation `%s` moves to the next row without reading or skipping the current one: a later dereference delivers an earlier row" % (hist, opn))
+                        c2 = 0
+                st = (r2, s2, c2)
+                if st not in seen and len(hist) < 24:
+                    seen.add(st)
+                    todo.append((st, (hist + " " + opn).strip()))
+    except Stop as s:
+        rep.fail_analysis("S13: %s" % s.why)
+        return
+    if prob:
+        rep.violation("S13-scanline-iterator", "S13:scanline_read_iterator", W + "io/scanline_read_iterator.hpp:%s" % inc[0]["line"], {"problems": prob[:4], "states_explored": len(seen)})
+    else:
+        rep.ok("S13-scanline-iterator", "S13:scanline_read_iterator", {"states_explored": len(seen)})
+    rep.floor("obligations:S13", 1)
